@@ -255,7 +255,7 @@ func main() {
 		return
 	}
 	rep = report.New("C19", tier, "model_checking")
-	rep.Rule = "E2: breadth-first search over all AddLink histories (each of the 10 candidate links between 5 irregularly placed nodes at most once; straight / detour geometry, stored direction and speed fixed per link by a table; tables with speeds {1,4} and uniform 0.1 (thorough: three {1,4} tables, uniform 0.1, {0.25,0.5}, uniform 25)) to depth 5 (7), deduplicated by (link set, node-id assignment); successor = replay on a fresh Network; in every distinct state, for both MinimizeOptions, all 49 ordered pairs of query points from {5 node positions, 2 off-network points} (pairs with a non-unique nearest node skipped); E3: in states with <= 3 links every query is additionally explored over all map-iteration orders of the instrumented route package with at most 1 deviation. Oracle: Floyd-Warshall minimum cost, chain validity, totals, emptiness. Non-trivial = states in which some node pair has at least two distinct routes."
+	rep.Rule = "E2: breadth-first search over all AddLink histories (each of the 10 candidate links between 5 irregularly placed nodes at most once; straight / detour geometry, stored direction and speed fixed per link by a table; tables with speeds {1,4} and uniform 0.1 (thorough: three {1,4} tables, uniform 0.1, {0.25,0.5}, uniform 25)) to depth 5 (7), deduplicated by (link set, node-id assignment); successor = replay on a fresh Network; in every distinct state, for both MinimizeOptions, all 49 ordered pairs of query points from {5 node positions, 2 off-network points} (pairs with a non-unique nearest node skipped); E3: in states with <= 3 links every query is additionally explored over all map-iteration orders of the instrumented route package with at most 1 deviation. every state of >= 2 links is also reached on one object with all queries asked before the last AddLink (queries as operations); Oracle: Floyd-Warshall minimum cost, chain validity, totals, emptiness. Non-trivial = states in which some node pair has at least two distinct routes."
 	type tabSpec struct {
 		variant int
 		speeds  [2]float64
@@ -322,6 +322,42 @@ func main() {
 						}
 					}
 				}
+				// queries as operations: on ONE network object, all queries after the
+				// first len(h)-1 links, then the last AddLink, then all queries again
+				// (an answer remembered from before the last link must not survive it)
+				if len(h) >= 2 {
+					for _, opt := range []route.MinimizeOption{route.Distance, route.Time} {
+						net, p := build(tab, h[:len(h)-1], opt)
+						if p != "" {
+							continue
+						}
+						for _, from := range queries {
+							for _, to := range queries {
+								try(func() { net.ShortestRoute(from, to) })
+							}
+						}
+						l := tab[h[len(h)-1]]
+						if p := try(func() { net.AddLink(append(geom.LineString{}, l.Geom...), l.Speed) }); p != "" {
+							rep.Violation("AddLink|panic-after-queries", map[string]interface{}{"history": histString(tab, h, opt), "panic": p})
+							continue
+						}
+						for _, from := range queries {
+							for _, to := range queries {
+								sym, det, _ := judge(tab, h, opt, net, from, to)
+								mu.Lock()
+								queriesRun++
+								mu.Unlock()
+								if sym != "" {
+									o := "Distance"
+									if opt == route.Time {
+										o = "Time"
+									}
+									rep.Violation(fmt.Sprintf("ShortestRoute|%s|queries-before-last-AddLink|%s", o, sym), map[string]interface{}{"history": histString(tab, h, opt) + " (all queries were also asked before the last AddLink)", "from": from, "to": to, "observed": det})
+								}
+							}
+						}
+					}
+				}
 				if len(h) >= 3 {
 					mu.Lock()
 					nontrivial++
@@ -360,7 +396,7 @@ func main() {
 				}
 				for _, from := range queries[:5] {
 					for _, to := range queries[:5] {
-						st := sched.Explore(sched.Config{Bound: 1, EnvChoices: true, Body: func() sched.Result {
+						st := sched.Explore(sched.Config{Bound: 1, EnvChoices: true, Setup: func() { net, _ = build(tab, h, opt) }, Body: func() sched.Result {
 							sym, det, _ := judge(tab, h, opt, net, from, to)
 							return sched.Result{Outcome: sym + det, Violation: sym}
 						}})
